@@ -10,7 +10,10 @@ namespace GV.Drv.ConsD
 open GV GV.Drv GV.Cons
 
 structure St where
-  dummy : Unit := ()
+  /-- the model nodes of the `node` ops, by id -/
+  nodes : List (String × HNode) := []
+  /-- the parameter store of the `glob` ops: process-wide values and the running thread's cells -/
+  ps : PStore := PStore.empty
 
 def ct? : String → Option ChainType
   | "main" => some .mainnet
@@ -78,8 +81,119 @@ def cmpAccept (model impl : String) : Verdict :=
   else if impl = "ok" then .fail model
   else .diff model
 
+/-- `hash:prev:rest:powok:rootok:` followed by the nine fields of `hdr?` -/
+def fhdr? (s : String) : Option FHdr :=
+  match s.splitOn ":" with
+  | a :: b :: r :: p :: q :: rest =>
+    match nat? a, nat? b, nat? r, bool? p, bool? q, hdr? (":".intercalate rest) with
+    | some a, some b, some r, some p, some q, some h =>
+      some { hash := a, prevHash := b, h := h, rest := r, powOk := p, rootOk := q }
+    | _, _, _, _, _, _ => none
+  | _ => none
+
+/-- `hash:prev:height:total_difficulty` -/
+def tip? (s : String) : Option Tip :=
+  match s.splitOn ":" with
+  | [a, b, c, d] =>
+    match nat? a, nat? b, nat? c, nat? d with
+    | some a, some b, some c, some d => some ⟨a, b, c, d⟩
+    | _, _, _, _ => none
+  | _ => none
+
+def showTip (t : Tip) : String := s!"{t.hash}:{t.prevHash}:{t.height}:{t.totalDiff}"
+
+def showHdr (h : Hdr) : String :=
+  s!"{h.height}:{h.ts}:{h.version}:{h.totalDiff}:{h.secondaryScaling}:{h.edgeBits}:{h.hash64}:{h.outputMmrSize}:{h.kernelMmrSize}"
+
+/-- a stored header: identity, link, digest of the remaining fields, the rule fields -/
+def showStored (f : FHdr) : String := s!"{f.hash}:{f.prevHash}:{f.rest}:{showHdr f.h}"
+
+def getNode (st : St) (id : String) : Option HNode := (st.nodes.find? (·.1 == id)).map (·.2)
+
+def setNode (st : St) (id : String) (n : HNode) : St :=
+  { st with nodes := (id, n) :: st.nodes.filter (·.1 != id) }
+
+def param? : String → Option Param
+  | "ct" => some .chainType
+  | "fee" => some .feeBase
+  | "ftl" => some .ftl
+  | "nrd" => some .nrd
+  | _ => none
+
+def showVal : Option Nat → String
+  | none => "panic"
+  | some v => toString v
+
+/-- the `node <id> …` ops: a model node folded over the deliveries -/
+def handleNode (st : St) (id : String) (args : List String) (impl : String) : St × Verdict :=
+  match args with
+  | ["new", g] => match fhdr? g with
+    | some g => (setNode st id (HNode.genesis .automatedTesting g), cmpModel "ok" impl)
+    | none => (st, .unknown)
+  | _ =>
+  match getNode st id with
+  | none => (st, .unknown)
+  | some n =>
+  match args with
+  | ["sync", skip, sh, batch] => match bool? skip, tip? sh, listOf fhdr? batch with
+    | some skip, some sh, some batch =>
+      match processBlockHeaders n skip sh batch with
+      | .ok (n', r) => (setNode st id n', cmpAccept (if r then "ok:some" else "ok:none") impl)
+      | .error e => (st, cmpAccept e.name impl)
+    | _, _, _ => (st, .unknown)
+  | ["pbh", skip, f] => match bool? skip, fhdr? f with
+    | some skip, some f =>
+      match nodeProcessBlockHeader n skip f with
+      | .ok n' => (setNode st id n', cmpAccept "ok" impl)
+      | .error e => (st, cmpAccept e.name impl)
+    | _, _ => (st, .unknown)
+  | ["pb", skip, bok, f] => match bool? skip, bool? bok, fhdr? f with
+    | some skip, some bok, some f =>
+      let (n', r) := nodeProcessBlock n skip f bok
+      (setNode st id n', cmpAccept (showExc NErr.name r) impl)
+    | _, _, _ => (st, .unknown)
+  | ["state"] => (st, cmpModel s!"{showTip n.headerHead} {showTip n.head}" impl)
+  | ["get", k] => match nat? k with
+    | some k => (st, cmpModel (match getHdr n.hdrs k with | some f => showStored f | none => "none") impl)
+    | none => (st, .unknown)
+  | _ => (st, .unknown)
+
+/-- the `glob …` ops: the parameter store folded over one thread's operations at a time -/
+def handleGlob (st : St) (args : List String) (impl : String) : St × Verdict :=
+  let upd (r : Option Nat × PStore) : St × Verdict := ({ st with ps := r.2 }, cmpModel (showVal r.1) impl)
+  match args with
+  | ["thread"] => ({ st with ps := st.ps.newThread }, cmpModel "ok" impl)
+  | ["get", p] => match param? p with
+    | some p => upd (st.ps.get p)
+    | none => (st, .unknown)
+  | ["setl", p, v] => match param? p, nat? v with
+    | some p, some v => ({ st with ps := st.ps.setLocal p v }, cmpModel "ok" impl)
+    | _, _ => (st, .unknown)
+  | ["setg", p, v] => match param? p, nat? v with
+    | some p, some v => ({ st with ps := st.ps.setGlobal p v }, cmpModel "ok" impl)
+    | _, _ => (st, .unknown)
+  | ["initg", p, v] => match param? p, nat? v with
+    | some p, some v =>
+      match st.ps.initGlobal p v with
+      | some s' => ({ st with ps := s' }, cmpModel "ok" impl)
+      | none => (st, cmpModel "panic" impl)
+    | _, _ => (st, .unknown)
+  | ["mbw"] => upd (derived maxBlockWeight st.ps)
+  | ["cbm"] => upd (derived coinbaseMaturity st.ps)
+  | ["fee", w] => match nat? w with
+    | some w => upd (acceptFee w st.ps)
+    | none => (st, .unknown)
+  | ["uhdr", now, sok, h] => match int? now, bool? sok, hdr? h with
+    | some now, some sok, some h =>
+      let (r, s') := untrustedHeaderRead st.ps now sok h
+      ({ st with ps := s' }, cmpAccept (match r with | none => "panic" | some x => showExc ReadErr.name x) impl)
+    | _, _, _ => (st, .unknown)
+  | _ => (st, .unknown)
+
 def handle (st : St) (args : List String) (impl : String) : St × Verdict :=
   match args with
+  | "node" :: id :: rest => handleNode st id rest impl
+  | "glob" :: rest => handleGlob st rest impl
   | ["damp", a, g, f] => match nat? a, nat? g, nat? f with
     | some a, some g, some f => (st, cmpModel (showOpt toString (damp a g f)) impl)
     | _, _, _ => (st, .unknown)
